@@ -304,6 +304,71 @@ def _judge(ctx, tag, run, fn, role, reserved_rejected, aio=False):
             ctx.ob(f"{tag}: receive limit MAX_LENGTH = announced 2^24", ml is not None and bool(np.all(np.asarray(ml[0]) == 2 ** 24)), "MAX_LENGTH changed", fn.loc())
 
 
+def rule_announced_is_enforced(ctx):
+    """"An incoming frame longer than the locally announced maximum is rejected" -- and one within it is not: the receive limit that is
+    ENFORCED (Int32StringReceiver.MAX_LENGTH) must be the limit that is ANNOUNCED in the handshake octet, also when the configured maximum
+    is not a power of two.  Twisted server handshake block and client connectionMade, evaluated (sa.core.tiny, math answered by the
+    standard library) for configured sizes 513, 1000, 1024, 2^24."""
+    import math as _math
+    from ..core.tiny import Tiny, Sym, _to_py, _from_py
+    from .common import inline_private
+    ctx.rule("C13.1c-announced-limit-is-enforced-limit")
+    probs, n = [], 0
+    for clsn, role in (("WampRawSocketServerProtocol", "server"), ("WampRawSocketClientProtocol", "client")):
+        cls = ctx.program.cls(f"{TW}.{clsn}")
+        if role == "server":
+            fn = ctx.program.func(f"{TW}.{clsn}.dataReceived")
+            blocks = [s_ for s_ in walk_no_defs(fn.node) if isinstance(s_, ast.If) and norm.text(s_.test) == "len(self._handshake_bytes) == 4"]
+            ctx.require(len(blocks) == 1, f"{clsn}.dataReceived: handshake block not found")
+            body = blocks[0].body
+        else:
+            fn = ctx.program.func(f"{TW}.{clsn}.connectionMade")
+            body = [x for x in fn.node.body if not (isinstance(x, ast.Expr) and isinstance(x.value, ast.Constant))]
+        ctx.analysed(fn)
+        for mms in (513, 1000, 1024, 2 ** 24):
+            wrote = []
+
+            def orc(f_, a_, k_=None):
+                if f_ == "self.transport.write":
+                    wrote.append(_to_py(a_[0]))
+                    return None
+                if f_ in ("math.log", "math.ceil"):
+                    return getattr(_math, f_[5:])(*a_)
+                if f_ == "ord":
+                    v_ = _to_py(a_[0])
+                    return ord(v_) if isinstance(v_, (bytes, str)) and len(v_) == 1 else 0
+                if f_ in ("bytes", "bytearray") and a_ and isinstance(a_[0], list) and all(isinstance(x, int) for x in a_[0]):
+                    return _from_py(bytes(a_[0]))
+                if f_ == "copy.copy":
+                    return a_[0]
+                return Sym(f"<{f_}>")
+            ser = Sym("serializer", RAWSOCKET_SERIALIZER_ID=1)
+            env = {"self": Sym("protocol"), "self._handshake_bytes": b"\x7f\xf1\x00\x00", "self._max_message_size": mms, "self.log": Sym("log"),
+                   "self.factory": Sym("factory", _serializers={1: ser}, _serializer=ser), "self._serializer": ser, "self.transport": Sym("tcp"),
+                   "self._handshake_complete": False, "self.MAX_LENGTH": 99999999, fn.params()[1] if len(fn.params()) > 1 else "data": _from_py(b"")}
+            from .c07_cells import _method_env
+            _method_env(ctx, cls, fn, env)
+            try:
+                t = Tiny(env, calls={"bytes": None} if False else None, default_call=orc, inline_self=inline_private(ctx, cls, exclude=("_on_handshake_complete",)),
+                         model_strings=True, opaque_globals=True)
+                r = t.run(body)
+            except AnalysisError as e:
+                raise AnalysisError(f"[C13.1c-announced-limit-is-enforced-limit] {clsn} handshake code outside the modelled subset: {e}")
+            n += 1
+            tag = f"twisted {role}, maxMessagePayloadSize={mms}"
+            octs = b"".join(bytes(x) if isinstance(x, list) and all(isinstance(y, int) for y in x) else x for x in wrote if isinstance(x, (bytes, list)))
+            enforced = t.env.get("self.MAX_LENGTH", t.env["self"].attrs.get("MAX_LENGTH"))
+            if r[0] == "raise" or len(octs) != 4:
+                probs.append(f"{tag}: {r[0]} {str(r[1])[:50]}, wrote {octs!r}")
+                continue
+            announced = 2 ** (9 + (octs[1] >> 4))
+            if announced < mms or announced >= 2 * mms and mms > 512:
+                probs.append(f"{tag}: announces 2^{9 + (octs[1] >> 4)} = {announced}")
+            if enforced != announced:
+                probs.append(f"{tag}: announces a maximum of {announced} octets but enforces {enforced}: a peer keeping to what it was told is cut off")
+    ctx.ob(f"twisted: the receive limit enforced is the limit announced in the handshake octet, for any configured maximum [{n} cells]", not probs, "; ".join(probs[:2]), fn.loc())
+
+
 def rule_requests(ctx):
     ctx.rule("C13.1b-client-request-octets")
     fn = ctx.program.func(f"{TW}.WampRawSocketClientProtocol.connectionMade")
@@ -453,7 +518,9 @@ def rule_limits(ctx):
                             return Buf(900, 904)
                         return Sym(f"<{f_}>")
                     env = {"self": Sym("transport"), lim: L, fn.params()[1]: Sym("message"), "self.log": Sym("log"), "self._serializer": Sym("serializer"),
-                           "self.__class__": Sym("class", __name__="X"), "self.transport": Sym("tcp"), "self.prefix_format": "!L"}
+                           "self.__class__": Sym("class", __name__="X"), "self.transport": Sym("tcp"), "self.prefix_format": "!L",
+                           "self.max_length": 2 ** 24, "self._max_message_size": 2 ** 24, "self.MAX_LENGTH": 2 ** 24}
+                    env[lim] = L  # (own receive limits above are not the peer's announced maximum)
                     from .c07_cells import _method_env
 
                     def inl(name, _cls=fn.cls):
@@ -490,6 +557,60 @@ def rule_limits(ctx):
     ft = [n for n in g.stmt_nodes() if n.kind == "test" and "frame_type" in norm.mentions_of(n.ast) and any(f[0] == "lt" and f[2] == ("e", "frame_type") for f in norm.atoms(n.ast, True, res))]
     ok = len(ft) == 1 and all(m.kind == "stmt" and any(self_call(c, "protocol_error") for c in node_calls(m)) for m, lab in ft[0].succ if lab and lab[0] == "T")
     ctx.ob("asyncio: a frame type above PONG is refused", ok, "frame type check changed", pp.loc())
+    # the same, decided cell-wise (sa.core.tiny on concrete prefix octets; struct / ord answered by the standard library): a frame with type
+    # octet t and a 3-octet payload, whole and with the prefix split over two reads -- t = 0 is delivered, 1 / 2 go to ping / pong, 3..7 are refused
+    import struct as _struct
+    from ..core.tiny import _to_py as _tp, _from_py as _fp
+    mod = ctx.program.module(AIO)
+    consts = {}
+    for st_ in mod.tree.body if hasattr(mod, "tree") else []:
+        if isinstance(st_, ast.Assign) and len(st_.targets) == 1 and isinstance(st_.targets[0], ast.Name) and isinstance(st_.value, ast.Constant) and st_.targets[0].id.startswith("FRAME_TYPE"):
+            consts[st_.targets[0].id] = st_.value.value
+    if len(consts) < 3:
+        consts = {k_: ctx.program.try_const(ast.Name(id=k_, ctx=ast.Load()), mod)[1] for k_ in ("FRAME_TYPE_DATA", "FRAME_TYPE_PING", "FRAME_TYPE_PONG")}
+    probs, ncell = [], 0
+    body = [x for x in pp.node.body if not (isinstance(x, ast.Expr) and isinstance(x.value, ast.Constant))]
+    try:
+        for t_ in range(8):
+            for cut in (None, 2):
+                seen = []
+
+                def orc(f_, a_, k_=None):
+                    if f_ in ("self.stringReceived", "self.ping", "self.pong", "self.protocol_error"):
+                        seen.append((f_[5:], _tp(a_[0]) if a_ else None))
+                        return None
+                    if f_ == "ord":
+                        v_ = _tp(a_[0])
+                        return ord(v_) if isinstance(v_, (bytes, str)) and len(v_) == 1 else 0
+                    if f_ == "struct.unpack":
+                        return list(_struct.unpack(a_[0], _tp(a_[1])))
+                    if f_ == "struct.calcsize":
+                        return _struct.calcsize(a_[0])
+                    return Sym(f"<{f_}>")
+                wire = bytes([t_, 0, 0, 3]) + b"abc"
+                env = {"self": Sym("protocol"), "self._buffer": _fp(b""), "self._header": None, "self.prefix_length": 4, "self.prefix_format": "!L", "self.max_length": 2 ** 24,
+                       "self.log": Sym("log")}
+                env.update(consts)
+                from .common import inline_private as _ip
+                tn = Tiny(env, default_call=orc, model_strings=True, model_types=True, opaque_globals=True,
+                          inline_self=_ip(ctx, pp.cls, exclude=("_on_handshake_complete",)))
+                for piece in ([wire] if cut is None else [wire[:cut], wire[cut:]]):
+                    tn.env[pp.params()[1]] = _fp(piece)
+                    r = tn.run(body)
+                    if r[0] == "raise":
+                        break
+                ncell += 1
+                tag = f"frame type octet {t_}, {'one read' if cut is None else 'prefix split after 2 octets'}"
+                want = {0: [("stringReceived", b"abc")], 1: [("ping", b"abc")], 2: [("pong", b"abc")]}.get(t_)
+                if r[0] == "raise":
+                    probs.append(f"{tag}: raises {r[1]}")
+                elif want is not None and seen != want:
+                    probs.append(f"{tag}: handled as {seen}, expected {want}")
+                elif want is None and (not seen or seen[0][0] != "protocol_error" or any(k_ != "protocol_error" for k_, _ in seen)):
+                    probs.append(f"{tag}: handled as {seen}, expected the frame to be refused (protocol error) and nothing delivered")
+    except AnalysisError as e:
+        raise AnalysisError(f"[C13.4-send-and-receive-limits] PrefixProtocol.data_received outside the modelled subset: {e}")
+    ctx.ob(f"asyncio: frame types 0/1/2 go to message / ping / pong, every other type is refused and nothing of it delivered [{ncell} cells]", not probs, "; ".join(probs[:2]), pp.loc())
     ll = ctx.program.func(f"{TW}.WampRawSocketProtocol.lengthLimitExceeded")
     ok = any(isinstance(s, ast.Raise) for s in walk_no_defs(ll.node)) or any("loseConnection" in norm.text(c.func) or "abort" in norm.text(c.func) for c in calls_in(ll.node))
     ctx.ob("twisted: an over-limit incoming frame is refused, not buffered", ok, "lengthLimitExceeded does nothing", ll.loc())
@@ -532,8 +653,35 @@ def rule_subprotocol(ctx):
     ok = t.get("self._serializers[ser.SERIALIZER_ID]") == "ser" and t.get("self._protocols") == "[f'wamp.2.{ser.SERIALIZER_ID}' for ser in serializers]"
     ctx.ob("factory: offered subprotocols and the serializer table are built from the same list", ok, f"{ {k: v for k, v in t.items() if 'serial' in k or 'proto' in k} }", fac.loc())
     snd = ctx.program.func("autobahn.wamp.websocket.WampWebSocketProtocol.send")
-    ok = any(self_call(c, "sendMessage") and [norm.text(a) for a in c.args] == ["payload", "isBinary"] for c in calls_in(snd.node)) and \
-        any(isinstance(s, ast.Assign) and norm.text(s.targets[0]) == "(payload, isBinary)" and norm.text(s.value) == "self._serializer.serialize(msg)" for s in walk_no_defs(snd.node))
+    # cell-wise (sa.core.tiny): whatever (payload, flag) the serializer returns is what sendMessage gets -- names are irrelevant
+    from ..core.tiny import Tiny as _T, Sym as _S, Buf as _B
+    from .c07_cells import _method_env as _me
+    ok = True
+    try:
+        for flag in (True, False):
+            pl = _B(0, 9)
+            got = []
+
+            def orc(f_, a_, k_=None, _flag=flag, _pl=pl):
+                if f_ == "self.sendMessage":
+                    got.append((list(a_), dict(k_ or {})))
+                    return None
+                if f_ == "self.isOpen":
+                    return True
+                if f_.endswith("_serializer.serialize"):
+                    return [_pl, _flag]
+                return _S(f"<{f_}>")
+            env = {"self": _S("transport"), snd.params()[1]: _S("message"), "self.log": _S("log"), "self._serializer": _S("serializer"), "self.__class__": _S("class", __name__="X"),
+                   "self._session": _S("session", _authid="a", _session_id=1, _authrole="r", _realm="x")}
+            _me(ctx, snd.cls, snd, env)
+            env.pop("self.sendMessage", None)
+            r = _T(env, default_call=orc, opaque_globals=True, model_strings=True).run([x for x in snd.node.body if not (isinstance(x, ast.Expr) and isinstance(x.value, ast.Constant))])
+            a_ = got[0][0] if len(got) == 1 else []
+            k_ = got[0][1] if len(got) == 1 else {}
+            fl = a_[1] if len(a_) > 1 else k_.get("isBinary")
+            ok = ok and r[0] != "raise" and len(got) == 1 and a_ and a_[0] is pl and fl is flag
+    except AnalysisError as e:
+        raise AnalysisError(f"[C13.7-subprotocol-selection] WampWebSocketProtocol.send outside the modelled subset: {e}")
     ctx.ob("WebSocket send: text/binary framing is the flag the serializer returned", ok, "flag not passed through", snd.loc())
 
 
@@ -637,6 +785,7 @@ def run(ctx):
     rule_refusal_exceptions(ctx)
     rule_handshake_tables(ctx)
     rule_requests(ctx)
+    rule_announced_is_enforced(ctx)
     rule_abort_siblings(ctx)
     rule_limits(ctx)
     rule_subprotocol(ctx)
